@@ -73,6 +73,10 @@ CLAIMED = {
             "TLC explores every sequence of Grow / Populate / Delete / Verify(full, latest) actions up to the bound and proves that with an ideal cache (complete policy lookup, checkpoints only from full verification) every Verify answers what the cache-less verifier answers; action sequences are replayed on a real repository whose every Verify is also run on a cache-less copy, with all references listed before and after, and TLC judges equality of verdict and tip and attributes differences to the listed cache deviations.",
             "One reference, key-disjoint principals, chain-valid policies; the attestation index of the cache is modelled but not stressed.",
             "DESIGN.md section 4 C08"),
+    "C10": ("Trees.tla, MC_Trees.tla, Trace_Trees.tla",
+            "TLC enumerates commit graphs (root, linear, two new commits, side-branch merges, merge back of an ancestor, merge of unrelated history) over trees of three path atoms, every signer assignment and every rule extent, proves that the matcher as designed refines the declarative file rule and that a net change of a protected path is always vouched for by an authorised signer (and that the documented merge exemption is exactly what this needs as a proviso); a seeded sample is built with odd concrete path names (space, tab, quote, backslash, control, UTF-8, DEL, glob metacharacters) in real on-disk repositories, and TLC judges the verdict of the real verifier and what GetFilePathsChangedByCommit, GetAllFilesInTree, GetEntriesInTree, GetPathIDInTree and WriteTree returned for the written paths.",
+            "File rules with threshold 1 (no approvals); newline excluded (as in the property); sampled, not exhaustive, on the real-Git side.",
+            "DESIGN.md section 4 C10"),
     "C19": ("Verify.tla (MergePredictI, MergeIdeal, MergeAgrees), MC_Verify.tla (family merge, C19Agrees), Trace_Verify.tla (Prop=C19)",
             "TLC enumerates policies with delegation thresholds 1..3 and a global threshold rule, approvals by every subset of principals bound to the predicted change, and feature trees, and proves that the ideal prediction agrees with verification of the merge for every recorder (authorised, already counted, unauthorised, unknown key, unsigned); on real repositories VerifyMergeableForCommit is asked, then every recorder records the merge on a copy and verifies it, and TLC judges the agreement and attributes disagreements to the listed deviations.",
             "Fast-forward merges only (the recorded commit carries the predicted tree); file rules and code-review approvals are not in the merge family yet.",
